@@ -8,11 +8,12 @@ import SamlVerif.Driver.Bindings
 import SamlVerif.Driver.Html
 import SamlVerif.Driver.Jwt
 import SamlVerif.Driver.Mw
+import SamlVerif.Driver.IdpServer
 
 open SamlVerif
 
 def allHandlers : List (String × Proto.P String) :=
-  Driver.SPStruct.handlers ++ Driver.Codec.handlers ++ Driver.XmlencD.handlers ++ Driver.IdPD.handlers ++ Driver.LogoutD.handlers ++ Driver.BindingsD.handlers ++ Driver.HtmlD.handlers ++ Driver.JwtD.handlers ++ Driver.MwD.handlers
+  Driver.SPStruct.handlers ++ Driver.Codec.handlers ++ Driver.XmlencD.handlers ++ Driver.IdPD.handlers ++ Driver.LogoutD.handlers ++ Driver.BindingsD.handlers ++ Driver.HtmlD.handlers ++ Driver.JwtD.handlers ++ Driver.MwD.handlers ++ Driver.IdpServerD.handlers
 
 def answer (line : String) : String :=
   match (line.splitOn " ").filter (· ≠ "") with
